@@ -60,7 +60,7 @@ Definition expresses (c : cls) (s : dml_spec) (cs : list call) : Prop :=
    whatever the shared renderer (Query.v / Terms.v) writes for them in that position *)
 Definition ast_of (c : cls) (s : dml_spec) : res dml_ast :=
   match s with
-  | SpInsert m t cols rows => Ok (AInsert m t cols (map (map value_tok_ins) rows))
+  | SpInsert m t cols rows => Ok (AInsert m t cols (map (map (value_tok_ins c)) rows))
   | SpInsertSelect m t cols fr sels wh =>
       match ins_sel_res c (QSel c [] false (map IT sels) (map SrcT fr) [] (option_map IT wh) None [] [] None None false None) with
       | Ok s => if starts_select s then Ok (AInsertSelect m t cols s) else Err "not a SELECT"
@@ -140,17 +140,17 @@ Theorem C05_values_land : forall c m t cols rows cs,
   exists st txt rows', run c (SInto (ptab t)) cs = Ok st /\ dml_text st = Ok txt
     /\ parse_dml txt = Some (AInsert m t cols rows')
     /\ List.length rows' = List.length rows
-    /\ (forall r, nth r rows' [] = map value_tok_ins (nth r rows []))
+    /\ (forall r, nth r rows' [] = map (value_tok_ins c) (nth r rows []))
     /\ (forall r k v, nth_error (nth r rows []) k = Some v ->
           exists l, nth_error (nth r rows' []) k = Some l /\ lit_value l = pyval_value v).
 Proof.
   intros c m t cols rows cs Hc Hwf Hex.
   destruct (C05_holds c (SpInsert m t cols rows) cs _ Hc Hwf Hex eq_refl) as (st & txt & R1 & R2 & R3).
-  exists st, txt, (map (map value_tok_ins) rows). repeat split; auto.
+  exists st, txt, (map (map (value_tok_ins c)) rows). repeat split; auto.
   - apply map_length.
-  - intros r. change (@nil lit) with (map value_tok_ins []). apply map_nth.
-  - intros r k v Hv. exists (value_tok_ins v). split.
-    + change (@nil lit) with (map value_tok_ins []). rewrite map_nth. apply map_nth_error. exact Hv.
+  - intros r. change (@nil lit) with (map (value_tok_ins c) []). apply map_nth.
+  - intros r k v Hv. exists (value_tok_ins c v). split.
+    + change (@nil lit) with (map (value_tok_ins c) []). rewrite map_nth. apply map_nth_error. exact Hv.
     + apply inserted_value_denotes.
       unfold wf_spec in Hwf. apply andb_prop in Hwf as [_ Hwf]. apply andb_prop in Hwf as [_ Hr].
       rewrite forallb_forall in Hr.
@@ -234,12 +234,12 @@ Example C05_example_expresses : expresses CSQLLite ex_spec ex_calls_1 /\ express
 Proof. vm_compute. repeat split; reflexivity. Qed.
 Example C05_example_text :
   (match run CSQLLite (SInto (ptab "t")) ex_calls_1 with Ok st => dml_text st | Err e => Err e end)
-  = Ok "INSERT OR REPLACE INTO ""t"" (""a"",""b"") VALUES (-1,'it''s ),( x, -- /* '),(NULL,true),(1.5,'')"
+  = Ok "INSERT OR REPLACE INTO ""t"" (""a"",""b"") VALUES (-1,'it''s ),( x, -- /* '),(NULL,1),(1.5,'')"
   /\ (match run CSQLLite (SInto (ptab "t")) ex_calls_2 with Ok st => dml_text st | Err e => Err e end)
      = (match run CSQLLite (SInto (ptab "t")) ex_calls_1 with Ok st => dml_text st | Err e => Err e end)
-  /\ parse_dml "INSERT OR REPLACE INTO ""t"" (""a"",""b"") VALUES (-1,'it''s ),( x, -- /* '),(NULL,true),(1.5,'')"
+  /\ parse_dml "INSERT OR REPLACE INTO ""t"" (""a"",""b"") VALUES (-1,'it''s ),( x, -- /* '),(NULL,1),(1.5,'')"
      = Some (AInsert MInsertOrReplace "t" ["a"; "b"]
-               [[LBare "-1"; LStr "it's ),( x, -- /* "]; [LBare "NULL"; LBare "true"]; [LBare "1.5"; LStr ""]]).
+               [[LBare "-1"; LStr "it's ),( x, -- /* "]; [LBare "NULL"; LBare "1"]; [LBare "1.5"; LStr ""]]).
 Proof. vm_compute. repeat split; reflexivity. Qed.
 
 Definition ex_upd : dml_spec :=
@@ -290,13 +290,13 @@ Definition C05_structure_any_value : Prop :=
   /\ (forall c tbl cs texts,
      dml_cls_ok c = true -> plain_table tbl = true -> forallb (insert_call_ok c) cs = true ->
      forallb str_col (cols_of_calls cs) = true -> rows_of_calls cs <> [] ->
-     mapM (fun row : list pyval => mapM (fun v => ins_value_res c (snd (wrap_constant v))) row) (rows_of_calls cs) = Ok texts ->
+     mapM (fun row : list pyval => mapM (fun v => ins_value_res c (snd (wrap_constant c v))) row) (rows_of_calls cs) = Ok texts ->
      exists st, run c (SInto tbl) cs = Ok st
        /\ dml_text st = Ok (insert_text_x (mode_of_calls cs) (tname tbl) (map col_str (cols_of_calls cs)) texts)
        /\ List.length texts = List.length (rows_of_calls cs)
        /\ (forall r row, nth_error (rows_of_calls cs) r = Some row ->
              exists trow, nth_error texts r = Some trow
-                          /\ mapM (fun v => ins_value_res c (snd (wrap_constant v))) row = Ok trow)).
+                          /\ mapM (fun v => ins_value_res c (snd (wrap_constant c v))) row = Ok trow)).
 Theorem C05_structure_any_value_holds : C05_structure_any_value.
 Proof.
   split.
@@ -345,20 +345,26 @@ Example C05_what_the_old_texts_meant :
 Proof. vm_compute. repeat split; reflexivity. Qed.
 
 (* ---- outside the fragment, for the record ---- *)
-(* an alias on an inserted value is rendered inside VALUES (with_alias=True in _values_sql): the text leaves the grammar
-   (and SQLite rejects it).  An alias is not part of a DML specification; the defect is C13's. *)
-Example C05_alias_in_values_leaves_grammar :
-  (match run CSQLLite (SInto (ptab "t")) [KInsert [AVal (VTerm (TValI 1 (Some "n")))]] with Ok st => dml_text st | Err e => Err e end)
-  = Ok "INSERT INTO ""t"" VALUES (1 ""n"")"
+(* an alias on an inserted EXPRESSION is no longer rendered inside VALUES (f84cf61: with_alias=False; the former text
+   VALUES (NOW() "n") was rejected by SQLite — C13's finding); a ValueWrapper still writes its own alias whatever
+   with_alias says, which leaves the grammar.  An alias is not part of a DML specification. *)
+Example C05_alias_in_values :
+  t_of (run CSQLLite (SInto (ptab "t")) [KInsert [AVal (VTerm (TFunc "NOW" TNil None (Some "n"))); AVal (VInt 2)]])
+  = Ok "INSERT INTO ""t"" VALUES (NOW(),2)"
+  /\ t_of (run CSQLLite (SInto (ptab "t")) [KInsert [AVal (VTerm (TValI 1 (Some "n")))]]) = Ok "INSERT INTO ""t"" VALUES (1 ""n"")"
   /\ parse_dml "INSERT INTO ""t"" VALUES (1 ""n"")" = None.
-Proof. vm_compute. split; reflexivity. Qed.
+Proof. vm_compute. repeat split; reflexivity. Qed.
 (* insert() without arguments adds no row: nothing to render *)
 Example C05_insert_no_terms_is_noop :
   (match run CSQLLite (SInto (ptab "t")) [KInsert []] with Ok st => dml_text st | Err e => Err e end) = Ok "".
 Proof. vm_compute. reflexivity. Qed.
-(* inserted booleans do NOT go through SQLLiteValueWrapper (wrap_constant is called without wrapper_cls);
-   assigned ones do *)
+(* since e7a5678 inserted values are wrapped by the class's value wrapper like assigned ones: SQLLiteQuery writes
+   booleans as 1 / 0 in VALUES too (before: true / false, which needs SQLite >= 3.23); the generic Query keeps true / false;
+   the items of a nested tuple are still wrapped without the class's wrapper *)
 Example C05_bool_tokens :
-  value_tok_ins (VBool true) = LBare "true" /\ value_tok_set CSQLLite (VBool true) = LBare "1"
-  /\ lit_value (LBare "true") = lit_value (LBare "1").
+  value_tok_ins CSQLLite (VBool true) = LBare "1" /\ value_tok_set CSQLLite (VBool false) = LBare "0"
+  /\ value_tok_ins CQuery (VBool true) = LBare "true"
+  /\ lit_value (LBare "true") = lit_value (LBare "1")
+  /\ t_of (run CSQLLite (SInto (ptab "t")) [KInsert [AVal (VBool true); ASeq SqTuple [VInt 2; VBool true]]])
+     = Ok "INSERT INTO ""t"" VALUES (1,(2,true))".
 Proof. vm_compute. repeat split; reflexivity. Qed.
